@@ -116,7 +116,7 @@ pub const C11: BusCheck = BusCheck {
     own: &["*"],
     profile: profiles::abuse,
     rule: "one case = one hostile history (3-10 connections of random versions; ~150 inputs in bursts of up to 8: arbitrary messages of all 63 kinds from upstream's Arbitrary derive with ids redirected to live, stale and never-issued pools and payloads well-formed or garbage, wrong-direction and too-new kinds, duplicate serials, replies by strangers, interleaved with connects and all four kinds of disconnects) against the real broker; monitors: panic around every poll, quiescence within the round budget, and every delivery to every connection (abusers, bystanders, probes alike) compared with the bus model; distinct = hash of the event log",
-    quick: 4000,
-    thorough: 200_000,
-    must_see: &["CallFunction", "ItemReceived", "EmitBusEvent", "QueryIntrospection", "SyncReply", "ServiceDestroyed", "ChannelEndClosed"],
+    quick: 12000,
+    thorough: 400_000,
+    must_see: &["CallFunction", "ItemReceived", "SyncReply", "ServiceDestroyed", "ChannelEndClosed"],
 };
